@@ -14,6 +14,13 @@
                         setFastIndex / deleteFastIndex in the SAME batch
      WCommit            Store.Commit: SaveVersion (nodes, root, index entries, stamp = version) +
                         strategy pruning; Direct: flushed; else rootmulti.Commit drains it with the block
+     WReload            Store.LoadLatestVersion on the SAME handle (in-process restart, dropped block):
+                        Load = LoadReadonly ; ensureFastIndex. The working session is abandoned: staged
+                        tree changes, value records and index entries must all be dropped (DiscardBatch in
+                        loadVersionDiscovered, for an empty version as for a non-empty one). On a store
+                        without any version Load returns before touching the session (code: latest == 0).
+     WLoadVersion(v)    Store.LoadVersion(v) on the same handle: Load, then the working tree is replaced by
+                        version v (reads only; writing needs the latest version again)
      Crash, Reopen(f)   process dies (session, batch, collector lost) / node start with the feature
                         on or off: Load = LoadReadonly ; ensureFastIndex (stamp missing or behind ->
                         rebuildFastIndex: clear, re-derive from the latest root, stamp; stamp ahead -> error)
@@ -27,7 +34,7 @@
      of LoadReadonly), StampAheadRebuilds (ensureFastIndex rebuilds on stamp # version).          *)
 EXTENDS Integers, Sequences, FiniteSets, TLC, Json
 
-CONSTANTS Keys, Vals, MaxVer, Direct, Keep, NLoads, Toggle,
+CONSTANTS Keys, Vals, MaxVer, Direct, Keep, NLoads, Toggle, Abandon,
           RemoveDeletesEntry, VersionGuard, StampGate, ReaderMaintains, StampAheadRebuilds,
           MaxLen
 
@@ -63,8 +70,9 @@ Proj(d) == [stamp |-> d.stamp, roots |-> d.roots, fast |-> d.fast]
 WRec(a) == [act |-> a, st |-> Proj(disk'), ver |-> wver', fastOn |-> wfast']
 
 \* ------------------------------------------------------------------ the live store
+AtLatest == wver = Max(disk.roots)
 WSet(k, x) ==
-  /\ Room /\ up /\ wok /\ wver < MaxVer
+  /\ Room /\ up /\ wok /\ wver < MaxVer /\ AtLatest
   /\ work' = [work EXCEPT ![k] = [val |-> x, ver |-> wver + 1]]
   /\ staged' = IF wfast THEN [staged EXCEPT ![k] = "set"] ELSE staged
   /\ dirty' = TRUE
@@ -72,7 +80,7 @@ WSet(k, x) ==
   /\ Log(WRec("Set") @@ [k |-> k, v |-> x])
 
 WRemove(k) ==
-  /\ Room /\ up /\ wok /\ wver < MaxVer /\ work[k] # None
+  /\ Room /\ up /\ wok /\ wver < MaxVer /\ AtLatest /\ work[k] # None
   /\ work' = [work EXCEPT ![k] = None]
   /\ staged' = IF wfast /\ RemoveDeletesEntry THEN [staged EXCEPT ![k] = "del"] ELSE staged
   /\ dirty' = TRUE
@@ -89,11 +97,41 @@ Saved(b, n) ==   \* image after SaveVersion(n) on top of image b
    stamp |-> IF wfast THEN n ELSE b.stamp]
 
 WCommit ==
-  /\ Room /\ up /\ wok /\ wver < MaxVer
+  /\ Room /\ up /\ wok /\ wver < MaxVer /\ AtLatest
   /\ disk' = Saved(Live, wver + 1) /\ pon' = FALSE /\ pend' = P0   \* Direct: flushed; else drained with the block
   /\ wver' = wver + 1 /\ dirty' = FALSE /\ staged' = [k \in Keys |-> NoOp]
   /\ UNCHANGED <<up, wfast, work, wok, rvars>>
   /\ Log(WRec("Commit"))
+
+Entries(t) == [k \in Keys |-> t[k]]     \* rebuildFastIndex: one entry per live key, version = the value's
+Rebuilt(b, n) == [b EXCEPT !.fast = IF n = 0 THEN Empty ELSE Entries(b.trees[n]), !.stamp = n]
+
+\* Load on the live handle: the abandoned session is replaced by the latest committed version
+LoadEff(target) ==
+  LET n == Max(disk.roots)
+      need == wfast /\ n > 0 /\ (Live.stamp < n \/ (StampAheadRebuilds /\ Live.stamp > n))
+      bad == wfast /\ n > 0 /\ Live.stamp > n /\ ~StampAheadRebuilds
+      tv == IF target = 0 THEN n ELSE target
+  IN IF n = 0 THEN UNCHANGED <<disk, pend, pon, wver, work, dirty, staged, wok>>   \* LoadReadonly returns early: session kept
+     ELSE /\ wver' = tv /\ work' = Live.trees[tv]
+          /\ dirty' = FALSE /\ staged' = [k \in Keys |-> NoOp]
+          /\ wok' = ~bad
+          /\ IF need /\ ~bad
+             THEN (IF Direct THEN disk' = Rebuilt(disk, n) /\ UNCHANGED <<pend, pon>>
+                             ELSE pend' = Rebuilt(Live, n) /\ pon' = TRUE /\ disk' = disk)
+             ELSE UNCHANGED <<disk, pend, pon>>
+
+WReload ==
+  /\ Room /\ up /\ wok /\ Abandon
+  /\ LoadEff(0)
+  /\ UNCHANGED <<up, wfast, rvars>>
+  /\ Log(WRec("Reload") @@ [ok |-> wok'])
+
+WLoadVersion(x) ==
+  /\ Room /\ up /\ wok /\ Abandon /\ x \in disk.roots
+  /\ LoadEff(x)
+  /\ UNCHANGED <<up, wfast, rvars>>
+  /\ Log(WRec("LoadVersion") @@ [v |-> x, ok |-> wok'])
 
 Crash ==
   /\ Room /\ up
@@ -101,8 +139,6 @@ Crash ==
   /\ UNCHANGED <<disk, wfast, wver, work, dirty, staged, wok, rvars>>
   /\ Log([act |-> "Crash", st |-> Proj(disk), ver |-> wver, fastOn |-> wfast])
 
-Entries(t) == [k \in Keys |-> t[k]]     \* rebuildFastIndex: one entry per live key, version = the value's
-Rebuilt(b, n) == [b EXCEPT !.fast = IF n = 0 THEN Empty ELSE Entries(b.trees[n]), !.stamp = n]
 
 Reopen(f) ==
   /\ Room /\ ~up /\ (f = wfast \/ Toggle)
@@ -159,6 +195,7 @@ RDone ==
 Next == \/ \E k \in Keys, x \in Vals : WSet(k, x)
         \/ \E k \in Keys : WRemove(k) \/ RGet(k)
         \/ WCommit \/ Crash \/ \E f \in BOOLEAN : Reopen(f)
+        \/ WReload \/ \E x \in 1..MaxVer : WLoadVersion(x)
         \/ \E x \in 1..MaxVer : RStart(x)
         \/ RDiscover \/ RLoad \/ RStamp \/ RDone
 
